@@ -45,6 +45,8 @@ def expectedGuards : List String :=
    "objectGoReflect._put: drops the cache entry after a successful store",
    "copyReflectValueWrapper: re-points the wrapper through setReflectValue",
    "objectGoArrayReflect.swap: moves the cached wrappers with the elements",
+   "mapObject.export: consults the identity cache on entry",
+   "setObject.export: consults the identity cache on entry",
    "baseObject.export: caches before exporting the children",
    "arrayObject.export: caches before exporting the children"]
 
